@@ -8,6 +8,9 @@ pub mod support;
 #[path = "/verif/harness/c20.rs"]
 pub mod c20;
 
+#[path = "/verif/harness/c19.rs"]
+pub mod c19;
+
 /// Native replay entry: `VERIF_REPLAY=<file.json> cargo test --lib verif_replay_entry`
 /// file = {"module": "c20", "harness": "k20_1_varint_trio", "vals": [[1,0,..],..]}
 #[cfg(all(not(kani), test))]
@@ -35,6 +38,9 @@ mod replay_entry {
         let mut s = RSrc::new(vals);
         let known = match module.as_str() {
             "c20" => super::c20::replay(&harness, &mut s),
+            "c19" => super::c19::replay(&harness, &mut s),
+            "c02" => crate::raft::filestore::raftlog::verif_priv::replay(&harness, &mut s),
+            "c14" => crate::naming::cluster::node_manage::verif_priv::replay(&harness, &mut s),
             _ => false,
         };
         if !known {
